@@ -197,3 +197,399 @@ Proof.
     + apply Hout. intros e Hine E. apply Hk. exists e. split; assumption.
     + intros rel saved Hine E. apply Hk. exists (rel, saved). split; [exact Hine|exact E].
 Qed.
+
+(* ====================================================================================== *)
+(* Part B: what the write tool changes                                                     *)
+(* ====================================================================================== *)
+Lemma pre_err_dirs f t : t_base t = [] -> pre_err f t = None -> dirs_ok f [] (t_path t) = None /\ t_nul t = false.
+Proof.
+  unfold pre_err, t_path. intros ->. destruct (t_nul t); [discriminate|]. cbn [app]. intros H. split; [exact H|reflexivity].
+Qed.
+
+Lemma pre_err_of_dirs f t : t_base t = [] -> t_nul t = false -> dirs_ok f [] (t_path t) = None -> pre_err f t = None.
+Proof. unfold pre_err, t_path. intros -> ->. cbn [app]. intros H; exact H. Qed.
+
+Lemma os_write_trail f t d f' : os_write f t d = Ok f' -> t_trail t = TNone.
+Proof.
+  unfold os_write. destruct (pre_err f t); [discriminate|].
+  destruct (lookup f (t_path t)) as [[b|]|]; destruct (t_trail t); try discriminate; reflexivity.
+Qed.
+
+Lemma os_append_ok f t c d f' : os_append f t c d = Ok f' ->
+  exists d', f' = set f (t_path t) (File d') /\ pre_err f t = None /\ lookup f (t_path t) <> Some Dir.
+Proof.
+  unfold os_append. destruct (pre_err f t); [discriminate|].
+  destruct (lookup f (t_path t)) as [[b|]|]; [| discriminate |].
+  - destruct (t_trail t); try discriminate. intros H; inversion H. eexists. repeat split; discriminate.
+  - destruct c; [|discriminate]. destruct (t_trail t); try discriminate. intros H; inversion H. eexists. repeat split; discriminate.
+Qed.
+
+Lemma os_rename_ok f src dst f' : os_rename_file f src dst = Ok f' ->
+  exists b, lookup f (t_path src) = Some (File b) /\ pre_err f dst = None /\ lookup f (t_path dst) <> Some Dir
+            /\ f' = set (unset f (t_path src)) (t_path dst) (File b).
+Proof.
+  unfold os_rename_file. destruct (pre_err f src); [discriminate|].
+  destruct (lookup f (t_path src)) as [[b|]|]; [|discriminate|discriminate].
+  destruct (t_trail src); try discriminate.
+  destruct (pre_err f dst); [discriminate|].
+  destruct (lookup f (t_path dst)) as [[b2|]|]; [|discriminate|]; destruct (t_trail dst); try discriminate;
+    intros H; inversion H; exists b; repeat split; discriminate.
+Qed.
+
+Lemma strict_prefix_irrefl k : ~ strict_prefix k k.
+Proof. intros (suf & E & _ & Hs). apply Hs. eapply app_self_nil. exact E. Qed.
+
+(* `if let Some(parent) = path.parent() { create_dir_all(parent) }`: directories only, never at the path itself *)
+Lemma mkpar_props f t f1 er : t_base t = [] -> mk_parent_dirs f t = (f1, er) -> sane f ->
+  sane f1 /\ dirmono f f1 /\ (forall q, file_at f1 q = file_at f q)
+  /\ (forall r, lookup f1 r = lookup f r \/ (lookup f r = None /\ lookup f1 r = Some Dir /\ strict_prefix r (t_path t))).
+Proof.
+  intros Hb H Hs. unfold mk_parent_dirs in H. unfold t_path. rewrite Hb in *. cbn [app].
+  destruct (comps_nul (removelast (t_comps t))).
+  - inversion H; subst f1. repeat split; try assumption; try reflexivity. intros r Hr; exact Hr. intros r; left; reflexivity.
+  - split; [eapply sane_mkdir; eassumption|]. split; [|split].
+    + intros r Hr. destruct (mkdir_all_lookup _ _ _ _ _ H r) as [E|[E1 _]]; [rewrite E; exact Hr|rewrite Hr in E1; discriminate].
+    + intros q. eapply mkdir_all_file_at; exact H.
+    + intros r. destruct (mkdir_all_where _ _ _ _ _ H r) as [E|(E1 & E2 & pre & suf & Ec & Hp & Er)]; [left; exact E|].
+      right. split; [exact E1|]. split; [exact E2|]. cbn [app] in Er. subst r. eapply removelast_strict; eassumption.
+Qed.
+
+Section WriteGood.
+  Variable f1 : fs.
+  Variable K : path -> Prop.
+  Hypothesis sane1 : sane f1.
+
+  Lemma good_write g t d g' : t_base t = [] -> Good f1 K g -> K (t_path t) -> os_write g t d = Ok g' -> Good f1 K g'.
+  Proof.
+    intros Hb G Hk H. destruct (os_write_ok _ _ _ _ H) as (E & Hpre & Hn). subst g'.
+    destruct (pre_err_dirs _ _ Hb Hpre) as [Hd _]. apply good_set; assumption.
+  Qed.
+
+  Lemma good_append g t c d g' : t_base t = [] -> Good f1 K g -> K (t_path t) -> os_append g t c d = Ok g' -> Good f1 K g'.
+  Proof.
+    intros Hb G Hk H. destruct (os_append_ok _ _ _ _ _ H) as (d' & E & Hpre & Hn). subst g'.
+    destruct (pre_err_dirs _ _ Hb Hpre) as [Hd _]. apply good_set; assumption.
+  Qed.
+
+  Lemma good_remove g t g' : Good f1 K g -> K (t_path t) -> os_remove_file g t = Ok g' -> Good f1 K g'.
+  Proof.
+    intros G Hk H. destruct (os_remove_ok _ _ _ H) as (E & b0 & L). subst g'. eapply good_unset; eassumption.
+  Qed.
+
+  Lemma good_rm_ignore g t : Good f1 K g -> K (t_path t) -> Good f1 K (rm_ignore g t).
+  Proof.
+    intros G Hk. unfold rm_ignore. destruct (os_remove_file g t) as [g'|e] eqn:E; [|exact G].
+    eapply good_remove; eassumption.
+  Qed.
+
+  Lemma dirs_ok_unset_file g ks b kd : lookup g ks = Some (File b) -> dirs_ok g [] kd = None -> dirs_ok (unset g ks) [] kd = None.
+  Proof.
+    intros L D. rewrite <- D. apply dirs_ok_ext. intros pre suf E Hp Hsf. cbn [app].
+    apply lookup_unset_other. intros ->.
+    pose proof (dirs_ok_none_prefix g kd [] D pre suf E Hp Hsf) as LD. cbn [app] in LD. rewrite LD in L. discriminate.
+  Qed.
+
+  Lemma dirs_ok_set_self g k n : dirs_ok (set g k n) [] k = dirs_ok g [] k.
+  Proof.
+    apply dirs_ok_ext. intros pre suf E Hp Hsf. cbn [app]. apply lookup_set_other. intros ->.
+    apply Hsf. eapply app_self_nil. exact E.
+  Qed.
+
+  Lemma good_rename g src dst g' : t_base dst = [] -> Good f1 K g -> K (t_path src) -> K (t_path dst) ->
+    os_rename_file g src dst = Ok g' -> Good f1 K g'.
+  Proof.
+    intros Hb G Hs Hd H. destruct (os_rename_ok _ _ _ _ H) as (b & Ls & Hpre & Hn & E). subst g'.
+    destruct (pre_err_dirs _ _ Hb Hpre) as [Dd _].
+    apply good_set; [eapply good_unset; eassumption|exact Hd|eapply dirs_ok_unset_file; eassumption|].
+    destruct (path_dec (t_path src) (t_path dst)) as [E|E].
+    - rewrite <- E, lookup_unset_same by (intros E0; rewrite E0 in Ls; discriminate). discriminate.
+    - rewrite lookup_unset_other by exact E. exact Hn.
+  Qed.
+End WriteGood.
+
+(* removing the temporary file always succeeds once it has been written *)
+Lemma rm_tmp g tt d : t_base tt = [] -> t_nul tt = false -> t_trail tt = TNone ->
+  lookup g (t_path tt) = Some (File d) -> dirs_ok g [] (t_path tt) = None -> rm_ignore g tt = unset g (t_path tt).
+Proof.
+  intros Hb Hn Ht L D. unfold rm_ignore, os_remove_file. rewrite (pre_err_of_dirs _ _ Hb Hn D), L, Ht. reflexivity.
+Qed.
+
+Lemma arg_interp_tool raw x : arg_interp [1; 2; 3] raw = Ok x -> x = raw /\ is_absolute raw = false /\ has_parent raw = false.
+Proof.
+  cbn [arg_interp]. destruct (is_absolute raw); [discriminate|]. destruct (has_parent raw); [discriminate|].
+  intros H; inversion H. repeat split.
+Qed.
+Lemma arg_interp_auto raw x : arg_interp [1; 2; 6] raw = Ok x -> x = raw /\ is_absolute raw = false /\ has_parent raw = false.
+Proof.
+  cbn [arg_interp]. destruct (is_absolute raw); [discriminate|]. destruct (has_parent raw); [discriminate|].
+  intros H; inversion H. repeat split.
+Qed.
+
+Definition wk (raw : str) : path := t_path (mk_tgt [] raw).
+Definition wkt (raw ext : str) : path := t_path (tmp_tgt raw ext).
+
+(* the atomic branch after the parents exist *)
+Lemma atomic_good f1 raw ext data f' er : sane f1 ->
+  (let t := mk_tgt [] raw in let tt := tmp_tgt raw ext in
+   match os_write f1 tt data with
+   | Err e => (f1, Some e)
+   | Ok f2 =>
+     if os_exists f2 t then
+       match os_remove_file f2 t with
+       | Err e => (rm_ignore f2 tt, Some e)
+       | Ok f3 => match os_rename_file f3 tt t with Ok f4 => (f4, None) | Err e => (rm_ignore f3 tt, Some e) end
+       end
+     else match os_rename_file f2 tt t with Ok f4 => (f4, None) | Err e => (rm_ignore f2 tt, Some e) end
+   end) = (f', er) ->
+  Good f1 (fun q => q = wk raw \/ q = wkt raw ext) f'
+  /\ (wkt raw ext <> wk raw -> lookup f1 (wkt raw ext) = None -> lookup f' (wkt raw ext) = None).
+Proof.
+  intros Hs. cbv zeta. set (t := mk_tgt [] raw). set (tt := tmp_tgt raw ext).
+  set (K := fun q => q = wk raw \/ q = wkt raw ext).
+  assert (Hbt : t_base t = []) by reflexivity. assert (Hbtt : t_base tt = []) by reflexivity.
+  assert (Kt : K (t_path t)) by (left; reflexivity). assert (Ktt : K (t_path tt)) by (right; reflexivity).
+  pose proof (good_init f1 K Hs) as G1.
+  destruct (os_write f1 tt data) as [f2|e] eqn:Ew.
+  2:{ intros H; inversion H; subst f'. split; [exact G1|intros _ L; exact L]. }
+  assert (G2 : Good f1 K f2) by (eapply good_write; eassumption).
+  destruct (os_write_ok _ _ _ _ Ew) as (E2 & Hpre & Hnd). pose proof (os_write_trail _ _ _ _ Ew) as Htr.
+  destruct (pre_err_dirs _ _ Hbtt Hpre) as [Dt Hnul].
+  assert (Hne : t_path tt <> []) by (eapply not_dir_ne_nil; exact Hnd).
+  assert (L2 : lookup f2 (t_path tt) = Some (File data)) by (rewrite E2; apply lookup_set_same; exact Hne).
+  assert (D2 : dirs_ok f2 [] (t_path tt) = None) by (rewrite E2, dirs_ok_set_self; exact Dt).
+  assert (Rm2 : rm_ignore f2 tt = unset f2 (t_path tt)) by (eapply rm_tmp; eassumption).
+  assert (Hren : forall g f4, Good f1 K g -> os_rename_file g tt t = Ok f4 ->
+            Good f1 K f4 /\ (wkt raw ext <> wk raw -> lookup f4 (wkt raw ext) = None)).
+  { intros g f4 G H. split; [exact (good_rename f1 K g tt t f4 Hbt G Ktt Kt H)|].
+    destruct (os_rename_ok _ _ _ _ H) as (b & Ls & _ & _ & E). subst f4. intros Hneq.
+    change (wkt raw ext) with (t_path tt). change (wk raw) with (t_path t) in Hneq.
+    rewrite lookup_set_other by (intros E; apply Hneq; symmetry; exact E). apply lookup_unset_same; exact Hne. }
+  destruct (os_exists f2 t).
+  - destruct (os_remove_file f2 t) as [f3|e] eqn:Er.
+    + assert (G3 : Good f1 K f3) by exact (good_remove f1 K f2 t f3 G2 Kt Er).
+      destruct (os_remove_ok _ _ _ Er) as (E3 & b0 & Lk).
+      destruct (os_rename_file f3 tt t) as [f4|e] eqn:En.
+      * intros H; inversion H; subst f'. destruct (Hren _ _ G3 En) as [G4 L4]. split; [exact G4|intros Hneq _; exact (L4 Hneq)].
+      * intros H; inversion H; subst f'. split; [apply good_rm_ignore; assumption|]. intros Hneq _.
+        change (wkt raw ext) with (t_path tt) in *. change (wk raw) with (t_path t) in Hneq.
+        assert (L3 : lookup f3 (t_path tt) = Some (File data)).
+        { rewrite E3, lookup_unset_other by (intros E; apply Hneq; symmetry; exact E). exact L2. }
+        assert (D3 : dirs_ok f3 [] (t_path tt) = None) by (rewrite E3; eapply dirs_ok_unset_file; eassumption).
+        rewrite (rm_tmp f3 tt data Hbtt Hnul Htr L3 D3). apply lookup_unset_same; exact Hne.
+    + intros H; inversion H; subst f'. split; [apply good_rm_ignore; assumption|]. intros _ _.
+      change (wkt raw ext) with (t_path tt). rewrite Rm2. apply lookup_unset_same; exact Hne.
+  - destruct (os_rename_file f2 tt t) as [f4|e] eqn:En.
+    + intros H; inversion H; subst f'. destruct (Hren _ _ G2 En) as [G4 L4]. split; [exact G4|intros Hneq _; exact (L4 Hneq)].
+    + intros H; inversion H; subst f'. split; [apply good_rm_ignore; assumption|]. intros _ _.
+      change (wkt raw ext) with (t_path tt). rewrite Rm2. apply lookup_unset_same; exact Hne.
+Qed.
+
+(* The write tool changes no file but the one its argument names - provided (atomic mode) the name of its temporary
+   file is not taken; directories are only added, the named path does not become a directory. *)
+Theorem write_tool_effect f raw ext mode data f' er :
+  write_tool [1; 2; 3] f raw ext mode data = (f', er) -> sane f ->
+  (mode = 0 -> lookup f (wkt raw ext) = None) ->
+  sane f' /\ dirmono f f'
+  /\ (lookup f' (wk raw) = Some Dir -> lookup f (wk raw) = Some Dir)
+  /\ (forall q, q <> wk raw -> file_at f' q = file_at f q).
+Proof.
+  intros H Hs Hfresh. unfold write_tool in H.
+  assert (Hid : sane f /\ dirmono f f /\ (lookup f (wk raw) = Some Dir -> lookup f (wk raw) = Some Dir)
+                /\ (forall q, q <> wk raw -> file_at f q = file_at f q)).
+  { repeat split; try assumption; try reflexivity. intros r Hr; exact Hr. intros X; exact X. }
+  destruct (arg_interp [1; 2; 3] raw) as [x|e] eqn:Ea; [|inversion H; subst f'; exact Hid].
+  destruct (arg_interp_tool _ _ Ea) as (Ex & _ & _). subst x.
+  destruct (file_name raw); [|inversion H; subst f'; exact Hid]. clear Hid.
+  set (t := mk_tgt [] raw) in *.
+  assert (Hbt : t_base t = []) by reflexivity.
+  destruct (mk_parent_dirs f t) as [f1 e1] eqn:Em.
+  destruct (mkpar_props _ _ _ _ Hbt Em Hs) as (Hs1 & Hm1 & Hf1 & Hw1).
+  assert (Hk1 : lookup f1 (wk raw) = Some Dir -> lookup f (wk raw) = Some Dir).
+  { intros Hd. destruct (Hw1 (wk raw)) as [E|(_ & _ & Hsp)]; [rewrite <- E; exact Hd|].
+    exfalso. exact (strict_prefix_irrefl _ Hsp). }
+  assert (Hbase : sane f1 /\ dirmono f f1 /\ (lookup f1 (wk raw) = Some Dir -> lookup f (wk raw) = Some Dir)
+                  /\ (forall q, q <> wk raw -> file_at f1 q = file_at f q)).
+  { repeat split; try assumption. intros q _. apply Hf1. }
+  destruct e1 as [e|]; [inversion H; subst f'; exact Hbase|].
+  (* from Good (relative to f1) back to f *)
+  assert (Hfin : forall (K : path -> Prop), (forall q, K q \/ ~ K q) -> K (wk raw) -> Good f1 K f' ->
+            (forall q, K q -> q <> wk raw -> file_at f' q = file_at f q) ->
+            sane f' /\ dirmono f f' /\ (lookup f' (wk raw) = Some Dir -> lookup f (wk raw) = Some Dir)
+            /\ (forall q, q <> wk raw -> file_at f' q = file_at f q)).
+  { intros K Kdec Kk G Hkq. split; [apply G|]. split; [intros r Hr; apply (g_mono _ _ _ G); apply Hm1; exact Hr|]. split.
+    - intros Hd. apply Hk1. apply (g_nodir _ _ _ G); assumption.
+    - intros q Hq. destruct (Kdec q) as [Hin|Hout]; [apply Hkq; assumption|].
+      rewrite (g_out _ _ _ G q Hout). apply Hf1. }
+  set (K1 := fun q : path => q = wk raw).
+  assert (K1dec : forall q, K1 q \/ ~ K1 q) by (intros q; unfold K1; destruct (path_dec q (wk raw)); [left|right]; assumption).
+  assert (K1k : K1 (t_path t)) by reflexivity.
+  assert (K1q : forall q, K1 q -> q <> wk raw -> file_at f' q = file_at f q) by (intros q Hk Hq; contradiction).
+  pose proof (good_init f1 K1 Hs1) as G1.
+  destruct ((mode =? 2) || (mode =? 3)).
+  { destruct (os_append f1 t (mode =? 2) data) as [f2|e] eqn:Eap; inversion H; subst f'; [|exact Hbase].
+    apply (Hfin K1 K1dec K1k); [|exact K1q]. exact (good_append f1 K1 f1 t _ data f2 Hbt G1 K1k Eap). }
+  destruct (mode =? 0) eqn:E0.
+  2:{ destruct (os_write f1 t data) as [f2|e] eqn:Ew; inversion H; subst f'; [|exact Hbase].
+      apply (Hfin K1 K1dec K1k); [|exact K1q]. exact (good_write f1 K1 f1 t data f2 Hbt G1 K1k Ew). }
+  apply N.eqb_eq in E0. specialize (Hfresh E0).
+  destruct (tmp_is_parent raw ext); [inversion H; subst f'; exact Hbase|].
+  destruct (atomic_good f1 raw ext data f' er Hs1 H) as [G Lkt].
+  apply (Hfin (fun q => q = wk raw \/ q = wkt raw ext)).
+  - intros q. destruct (path_dec q (wk raw)) as [E|E]; [left; left; exact E|].
+    destruct (path_dec q (wkt raw ext)) as [E2|E2]; [left; right; exact E2|right; intros [X|X]; contradiction].
+  - left; reflexivity.
+  - exact G.
+  - intros q [Hq|Hq] Hne; [contradiction|]. subst q.
+    assert (F0 : file_at f (wkt raw ext) = None) by (unfold file_at; rewrite Hfresh; reflexivity).
+    rewrite F0. destruct (Hw1 (wkt raw ext)) as [E|(_ & Ed & _)].
+    + unfold file_at. rewrite (Lkt Hne); [reflexivity|]. rewrite E. exact Hfresh.
+    + unfold file_at. rewrite (g_mono _ _ _ G _ Ed). reflexivity.
+Qed.
+
+(* ====================================================================================== *)
+(* Part C: the automatic checkpoint of `write` makes the edit undoable                      *)
+(* ====================================================================================== *)
+Lemma list_eqb_N a b : list_eqb N.eqb a b = true -> a = b.
+Proof. apply list_eqb_spec. intros x y. apply N.eqb_eq. Qed.
+
+Lemma cover_wf_spec found ts as_ tk prog : cover_wf found ts as_ tk prog = true ->
+  ts = expected_tool_steps /\ as_ = expected_auto_steps /\ tk = expected_tmp_kind.
+Proof.
+  unfold cover_wf. rewrite !andb_true_iff. intros ((((_ & A) & B) & C) & _).
+  split; [apply list_eqb_N; exact A|]. split; [apply list_eqb_N; exact B|apply N.eqb_eq; exact C].
+Qed.
+
+Lemma wk_key raw rel : real_segs rel = real_segs raw -> key rel = wk raw.
+Proof. intros E. unfold key, wk. rewrite E. reflexivity. Qed.
+
+Lemma save_one_err_dir f rel e : save_one f rel = Err e -> lookup f (key rel) = Some Dir.
+Proof.
+  unfold save_one. destruct (os_exists f (tgt_of rel)) eqn:Ex; [|discriminate].
+  unfold os_exists in Ex. unfold os_read. destruct (pre_err f (tgt_of rel)); [discriminate|].
+  cbn [tgt_of t_path t_base t_comps t_trail app] in *. change (real_segs rel) with (key rel) in *.
+  destruct (lookup f (key rel)) as [[b|]|]; [discriminate|reflexivity|discriminate].
+Qed.
+
+Lemma save_one_dir_err f rel : tree f -> lookup f (key rel) = Some Dir -> save_one f rel = Err EISDIR.
+Proof.
+  intros Ht L. unfold save_one, os_exists, os_read, pre_err. cbn [tgt_of t_nul t_base t_comps t_trail t_path app].
+  change (real_segs rel) with (key rel). rewrite (Ht _ _ L), L. reflexivity.
+Qed.
+
+(* For every extraction that passes cover_wf (Gen/AutoCover.v: this run's /repo): whatever the write tool is asked
+   (any string, any mode, success or failure), when the tool returns
+     - either ToolRunner took an automatic checkpoint before the call, and then rewinding to it SUCCEEDS and every
+       file of the workspace - named by the call or not - has the bytes / the absence it had before the call,
+     - or no checkpoint could be taken (the argument is refused, or names a directory), and then the call has not
+       changed any file.
+   The one hypothesis: in atomic mode the name of the temporary file (<stem>.<ext>, ext = "tmp-<uuid>") is not the
+   name of an existing entry - tmp_kind = 1 says the extension carries a fresh uuid. *)
+Theorem auto_write_undone found ts as_ tk prog :
+  cover_wf found ts as_ tk prog = true ->
+  forall f root raw ext mode data f' er,
+  is_absolute root = true -> tree f -> nonul f ->
+  (mode = 0 -> forall x, arg_interp ts raw = Ok x -> lookup f (t_path (tmp_tgt x ext)) = None) ->
+  write_tool ts f raw ext mode data = (f', er) ->
+  match auto_checkpoint as_ f root raw with
+  | Some ck => exists f2, rewind f' ck = (f2, None) /\ forall q, file_at f2 q = file_at f q
+  | None => forall q, file_at f' q = file_at f q
+  end.
+Proof.
+  intros Hwf f root raw ext mode data f' er Hroot Ht Hnul Hfresh Hw.
+  destruct (cover_wf_spec _ _ _ _ _ Hwf) as (-> & -> & _). unfold expected_tool_steps, expected_auto_steps in *.
+  unfold auto_checkpoint.
+  destruct (arg_interp [1; 2; 6] raw) as [a|e] eqn:Ea.
+  2:{ (* refused by the checkpoint side: refused by the tool *)
+      assert (Et : exists e', arg_interp [1; 2; 3] raw = Err e').
+      { cbn [arg_interp] in *. destruct (is_absolute raw); [eexists; reflexivity|]. destruct (has_parent raw); [eexists; reflexivity|discriminate]. }
+      destruct Et as [e' Et]. unfold write_tool in Hw. rewrite Et in Hw. inversion Hw; subst f'. reflexivity. }
+  destruct (arg_interp_auto _ _ Ea) as (-> & Habs & Hpar).
+  assert (Et : arg_interp [1; 2; 3] raw = Ok raw) by (cbn [arg_interp]; rewrite Habs, Hpar; reflexivity).
+  assert (Hres : resolve_tool root raw = Ok (join root raw)) by (unfold resolve_tool; rewrite Habs, Hpar; reflexivity).
+  destruct (auto_write_covers root raw _ [] Hroot Hres) as (rel & _ & Erel & Esegs & _).
+  pose proof (wk_key _ _ Esegs) as Ek.
+  assert (Hfr : mode = 0 -> lookup f (wkt raw ext) = None) by (intros Hm; exact (Hfresh Hm raw Et)).
+  destruct (write_tool_effect _ _ _ _ _ _ _ Hw (tree_sane _ Ht) Hfr) as (Hs' & Hm & Hd & Hout).
+  unfold create. cbn [map_res]. rewrite Erel. cbn [map_res].
+  destruct (save_one f rel) as [e|x] eqn:Es.
+  - assert (Hc : create f root [raw] = Ok [e]) by (unfold create; cbn [map_res]; rewrite Erel; cbn [map_res]; rewrite Es; reflexivity).
+    destruct (save_one_spec _ _ _ Es) as [Ef _].
+    apply (covered_edit_undone f root [raw] [e] f' Hc Ht Hnul Hs' Hm).
+    + intros e0 [<-|[]] Hdir. rewrite Ef, Ek in Hdir. pose proof (Hd Hdir) as Hd0. rewrite <- Ek in Hd0.
+      rewrite (save_one_dir_err _ _ Ht Hd0) in Es. discriminate.
+    + intros q Hq. apply Hout. intros E. apply (Hq e (or_introl eq_refl)). rewrite Ef, Ek. symmetry. exact E.
+  - (* the argument names a directory: the checkpoint fails, and the tool changes no file *)
+    pose proof (save_one_err_dir _ _ _ Es) as L0. rewrite Ek in L0.
+    intros q. destruct (path_dec q (wk raw)) as [->|Hq]; [|apply Hout; exact Hq].
+    unfold file_at. rewrite L0, (Hm _ L0). reflexivity.
+Qed.
+
+(* ---------- the two seeded disagreements, on named witnesses ---------- *)
+Require Import Coq.Strings.String.
+Definition x_root : str := bs "/r/ws"%string.
+Definition x_notes : str := bs "notes.txt"%string.
+Definition x_notes_sp : str := bs "notes.txt "%string.
+Definition x_ws : fs := [([x_notes], File (bs "one"%string))].
+Definition x_data : bytes := bs "two"%string.
+(* C14-4: builtins::resolve_path trims its argument ([4; 1; 2; 3]), files_for_invocation does not ([1; 2; 6]) *)
+Definition x_trim_steps : list N := [4; 1; 2; 3].
+Definition x_trim_ck : list entry := [(x_notes_sp, None)].
+Definition x_trim_after : fs := [([x_notes], File x_data)].
+Lemma trim_disagreement_loses_edit :
+  tree_b x_ws = true /\ nonul_b x_ws = true
+  /\ auto_checkpoint expected_auto_steps x_ws x_root x_notes_sp = Some x_trim_ck
+  /\ write_tool x_trim_steps x_ws x_notes_sp corr_ext 1 x_data = (x_trim_after, None)
+  /\ rewind x_trim_after x_trim_ck = (x_trim_after, None)
+  /\ file_at x_ws [x_notes] = Some (bs "one"%string) /\ file_at x_trim_after [x_notes] = Some x_data.
+Proof. vm_compute. repeat split. Qed.
+
+Lemma auto_cover_trim_refuted :
+  exists ts f root raw ext mode data ck f' f2 q,
+    ts <> expected_tool_steps
+    /\ tree_b f = true /\ nonul_b f = true
+    /\ auto_checkpoint expected_auto_steps f root raw = Some ck
+    /\ write_tool ts f raw ext mode data = (f', None)
+    /\ rewind f' ck = (f2, None) /\ file_at f2 q <> file_at f q.
+Proof.
+  exists x_trim_steps, x_ws, x_root, x_notes_sp, corr_ext, 1, x_data, x_trim_ck, x_trim_after, x_trim_after, [x_notes].
+  destruct trim_disagreement_loses_edit as (A & B & C & D & E & F & G).
+  split; [discriminate|]. repeat split; try assumption. rewrite F, G. discriminate.
+Qed.
+
+(* C14-6: the temporary file is `path.with_extension("tmp")`: a sibling may own that name *)
+Definition x_report : str := bs "report.txt"%string.
+Definition x_report_tmp : str := bs "report.tmp"%string.
+Definition x_tmp_ext : str := bs "tmp"%string.
+Definition x_ws6 : fs := [([x_report], File (bs "r1"%string)); ([x_report_tmp], File (bs "precious"%string))].
+Definition x_ck6 : list entry := [(x_report, Some (bs "r1"%string))].
+Definition x_after6 : fs := [([x_report], File x_data)].
+Definition x_rewound6 : fs := [([x_report], File (bs "r1"%string))].
+Lemma fixed_tmp_loses_sibling :
+  tree_b x_ws6 = true /\ nonul_b x_ws6 = true
+  /\ auto_checkpoint expected_auto_steps x_ws6 x_root x_report = Some x_ck6
+  /\ lookup x_ws6 (t_path (tmp_tgt x_report x_tmp_ext)) = Some (File (bs "precious"%string))
+  /\ write_tool expected_tool_steps x_ws6 x_report x_tmp_ext 0 x_data = (x_after6, None)
+  /\ rewind x_after6 x_ck6 = (x_rewound6, None)
+  /\ file_at x_ws6 [x_report_tmp] = Some (bs "precious"%string) /\ file_at x_rewound6 [x_report_tmp] = None.
+Proof. vm_compute. repeat split. Qed.
+
+Lemma fixed_tmp_refuted :
+  exists f root raw data ck f' f2 q,
+    tree_b f = true /\ nonul_b f = true
+    /\ auto_checkpoint expected_auto_steps f root raw = Some ck
+    /\ write_tool expected_tool_steps f raw x_tmp_ext 0 data = (f', None)
+    /\ rewind f' ck = (f2, None) /\ file_at f2 q <> file_at f q.
+Proof.
+  exists x_ws6, x_root, x_report, x_data, x_ck6, x_after6, x_rewound6, [x_report_tmp].
+  destruct fixed_tmp_loses_sibling as (A & B & C & _ & D & E & F & G).
+  repeat split; try assumption. rewrite F, G. discriminate.
+Qed.
+
+(* non-vacuity of auto_write_undone: the same call with the uuid-suffixed name *)
+Lemma ex_auto_write_undone :
+  tree_b x_ws6 = true /\ nonul_b x_ws6 = true
+  /\ lookup x_ws6 (t_path (tmp_tgt x_report corr_ext)) = None
+  /\ auto_checkpoint expected_auto_steps x_ws6 x_root x_report = Some x_ck6
+  /\ exists f', write_tool expected_tool_steps x_ws6 x_report corr_ext 0 x_data = (f', None)
+                /\ file_at f' [x_report] = Some x_data /\ rewind f' x_ck6 = (x_ws6, None).
+Proof. repeat split; try (vm_compute; reflexivity). eexists. vm_compute. repeat split. Qed.
